@@ -16,7 +16,8 @@ EXPLANATION = (
     "last and read as optional (EOF = absent) by all three formats. The CSI loffset transform (writer stores the minimum "
     "over a prefix of the ancestor chain, reader stores it verbatim: read(write(ix)) != ix, findings/repro f4) is NOT a "
     "violation of the statement's 'or at least answers every query with the same chunks' clause once min_offset takes the "
-    "minimum over all bins ending at or after the start (fix 42bd27d), so no identity-or-inverse rule is armed for it.")
+    "minimum over all bins ending at or after the start (fix 42bd27d), so no identity-or-inverse rule is armed for it."
+    " (R2, path form) in all six write_bins bodies no success exit is reachable once the absence edges of every test of `metadata` and the write_metadata call are removed: the pseudo-bin is written on every path on which metadata is present; (R6) reg2bin and reg2bins use the same coordinate convention (exactly one `- 1` on start and on end before the shifts); (R7) append-buffer discipline of the text index readers (crai, fai, tabix names): the rule that reports the genuine defect F14 (crai read_index), repaired in /repo.")
 ASSUMPTIONS = ["field layout (order and widths) of the index files is pinned by the unit tests (one literal per field encoder/decoder)"]
 NOT_DECIDED = ["reg2bin ∈ reg2bins containment and optimize_chunks coverage for every geometry (pure interval arithmetic)",
                "byte layout equality of writer and reader beyond the pairing clauses above",
